@@ -195,3 +195,200 @@ fn closest_n(nb: usize, s: usize, nsym: usize) {
 }
 
 
+
+// ---------------------------------------------------------------------------------------------
+// C08 (table level) / C12: one `add_node` / `add_nodes` on a directly constructed table.
+// ---------------------------------------------------------------------------------------------
+
+/// Shape invariant of the live part of the table (local id = 0..0): every live node sits in the
+/// bucket matching its shared prefix, is not the local id, not a router, and appears once.
+fn check_shape(t: &RoutingTable, router: Option<SocketAddr>) {
+    let nb = t.buckets.len();
+    assert!(nb >= 1 && nb <= MAX_BUCKETS, "C08: bucket count out of range");
+    let mut seen = [false; 64];
+    let mut i = 0;
+    while i < nb {
+        for node in t.buckets[i].iter() {
+            if node.status() != NodeStatus::Bad {
+                let lz = leading_bit_count(t.node_id, node.id());
+                assert!(lz != MAX_BUCKETS, "C08: the table lists the node's own id");
+                let want = if lz < nb { lz } else { nb - 1 };
+                assert!(want == i, "C08: a node sits in a bucket that does not match its shared prefix");
+                if let Some(r) = router {
+                    assert!(node.addr() != r, "C08: the table lists a router address");
+                }
+                let key = node.id().as_ref()[19] as usize;
+                assert!(key < 64 && !seen[key], "C08: an (id, address) pair appears twice in the table");
+                seen[key] = true;
+            }
+        }
+        i += 1;
+    }
+}
+
+/// count of live nodes and whether identity `key` is live, and its status
+fn census(t: &RoutingTable, key: u8) -> (usize, Option<NodeStatus>) {
+    let mut live = 0;
+    let mut st = None;
+    for b in t.buckets.iter() {
+        for node in b.iter() {
+            let s = node.status();
+            if s != NodeStatus::Bad {
+                live += 1;
+                if node.id().as_ref()[19] == key {
+                    st = Some(s);
+                }
+            }
+        }
+    }
+    (live, st)
+}
+
+/// One `add_node` of a fresh identity with shared prefix `offer_lz` into a table of `nb` buckets
+/// whose first `nsym` slots per bucket are arbitrary and the rest `fill` (0 empty, 1 good).
+fn table_add(nb: usize, nsym: usize, fill_good: bool, offer_lz: usize) {
+    let as_responder: bool = kani::any();
+    clock::start_fixed();
+    let mut t = symbolic_table_n(nb, nsym);
+    if fill_good {
+        let mut i = 0;
+        while i < nb {
+            let mut j = nsym;
+            while j < 8 {
+                let id = crate::verif::id_with_prefix(slot_ideal(nb, i, j), slot_key(i, j));
+                crate::bucket::verif::set_slot(&mut t.buckets[i], j, Node::as_good(id, concrete_addr_v4(slot_key(i, j))));
+                j += 1;
+            }
+            i += 1;
+        }
+    }
+    check_shape(&t, None);
+    let (live_before, _) = census(&t, 60);
+    let id = if offer_lz == MAX_BUCKETS {
+        NodeId::from([0u8; 20]) // the local id itself
+    } else {
+        crate::verif::id_with_prefix(offer_lz, 59) // key 60
+    };
+    let addr = concrete_addr_v4(59);
+    let node = if as_responder {
+        Node::as_good(id, addr)
+    } else {
+        Node::as_questionable(id, addr)
+    };
+    t.add_node(node);
+    check_shape(&t, None);
+    let (live_after, st) = census(&t, 60);
+    // at most one node lost; never more nodes than before + 1
+    assert!(live_after + 1 >= live_before + if st.is_some() { 1 } else { 0 }, "C08: one offer removed more than one node");
+    assert!(live_after <= live_before + 1, "C08: one offer added more than one node");
+    if offer_lz == MAX_BUCKETS {
+        assert!(st.is_none() && live_after == live_before, "C08: the node's own id was admitted");
+    }
+    if let Some(s) = st {
+        assert!(s == if as_responder { NodeStatus::Good } else { NodeStatus::Questionable }, "C08: offered node stored with a wrong standing");
+    }
+    assert!(t.buckets.len() >= nb, "C08: the table lost a bucket");
+    kani::cover!(t.buckets.len() > nb, "a split happened");
+    kani::cover!(st.is_some(), "the offer was admitted");
+    kani::cover!(st.is_none(), "the offer was refused");
+}
+
+#[kani::proof]
+#[kani::unwind(21)]
+#[kani::stub(std::hash::RandomState::new, crate::verif::stub_random_state_new)]
+fn c08_table_add_b1_sym2_lz0() {
+    table_add(1, 2, true, 0);
+}
+
+#[kani::proof]
+#[kani::unwind(21)]
+#[kani::stub(std::hash::RandomState::new, crate::verif::stub_random_state_new)]
+fn c08_table_add_b1_sym2_lz3() {
+    table_add(1, 2, true, 3);
+}
+
+#[kani::proof]
+#[kani::unwind(21)]
+#[kani::stub(std::hash::RandomState::new, crate::verif::stub_random_state_new)]
+fn c08_table_add_b2_sym2_lz1() {
+    table_add(2, 2, true, 1);
+}
+
+#[kani::proof]
+#[kani::unwind(21)]
+#[kani::stub(std::hash::RandomState::new, crate::verif::stub_random_state_new)]
+fn c08_table_add_own_id() {
+    table_add(2, 2, false, 160);
+}
+
+// ---------------------------------------------------------------------------------------------
+// C12: `add_nodes(responder, names)` - nodes merely named in a response are admitted at most as
+// questionable; the local id and router addresses are never admitted whoever names them.
+// name kinds: 0 = fresh identity, 1 = the local id, 2 = a router's address (fresh id),
+//             3 = identity already stored in bucket 0 slot 0 (arbitrary standing), 4 = same as name 0
+// ---------------------------------------------------------------------------------------------
+
+fn named(kind: u8, which: u8, router: SocketAddr) -> NodeHandle {
+    match kind {
+        1 => NodeHandle::new(NodeId::from([0u8; 20]), concrete_addr_v4(50 + which)),
+        2 => NodeHandle::new(crate::verif::id_with_prefix(0, 52 + which), router),
+        3 => NodeHandle::new(crate::verif::id_with_prefix(slot_ideal(2, 0, 0), slot_key(0, 0)), concrete_addr_v4(slot_key(0, 0))),
+        _ => NodeHandle::new(crate::verif::id_with_prefix(1, 54), concrete_addr_v4(54)),
+    }
+}
+
+fn add_nodes_step(kind_a: u8, kind_b: u8) {
+    clock::start_fixed();
+    let nb = 2;
+    let mut t = symbolic_table_n(nb, 2);
+    let router = SocketAddr::from((std::net::Ipv4Addr::new(192, 0, 2, 1), 6881));
+    t.routers.insert(router);
+    check_shape(&t, Some(router));
+    let (_, pre_existing) = census(&t, slot_key(0, 0) + 1);
+    // the responder: a fresh identity that answered us
+    let responder = Node::as_good(crate::verif::id_with_prefix(0, 57), concrete_addr_v4(57));
+    let names = [named(kind_a, 0, router), named(kind_b, 1, router)];
+    t.add_nodes(responder, &names);
+    check_shape(&t, Some(router));
+    // fresh names (keys 55) are at most questionable
+    let (_, fresh) = census(&t, 55);
+    if let Some(s) = fresh {
+        assert!(s == NodeStatus::Questionable, "C12: a node merely named in a response is reported good");
+    }
+    // router-addressed names (keys 53, 54) never appear: check_shape; own id: check_shape
+    let (_, r1) = census(&t, 53);
+    let (_, r2) = census(&t, 54);
+    assert!(r1.is_none() && r2.is_none(), "C12: a router address was admitted by hearsay");
+    // an already stored identity is not upgraded by hearsay
+    let (_, post_existing) = census(&t, slot_key(0, 0) + 1);
+    if kind_a == 3 || kind_b == 3 {
+        match (pre_existing, post_existing) {
+            (Some(a), Some(b)) => assert!(a == b, "C12: hearsay changed the standing of a stored node"),
+            (None, Some(b)) => assert!(b == NodeStatus::Questionable, "C12: a dropped node named again is reported good"),
+            _ => {}
+        }
+    }
+    kani::cover!(fresh.is_some(), "a named node was admitted");
+    kani::cover!(true, "end of harness reached");
+}
+
+#[kani::proof]
+#[kani::unwind(21)]
+#[kani::stub(std::hash::RandomState::new, crate::verif::stub_random_state_new)]
+fn c12_add_nodes_fresh_and_own_id() {
+    add_nodes_step(0, 1);
+}
+
+#[kani::proof]
+#[kani::unwind(21)]
+#[kani::stub(std::hash::RandomState::new, crate::verif::stub_random_state_new)]
+fn c12_add_nodes_router_and_existing() {
+    add_nodes_step(2, 3);
+}
+
+#[kani::proof]
+#[kani::unwind(21)]
+#[kani::stub(std::hash::RandomState::new, crate::verif::stub_random_state_new)]
+fn c12_add_nodes_duplicate_names() {
+    add_nodes_step(0, 4);
+}
